@@ -111,3 +111,23 @@ def pvals_of(env):
 
 def n_ops(recipe):
     return sum(1 for n in walk(recipe) if n[0] not in ("var", "const", "param", "vvar", "mvar"))
+
+
+def defined_at_origin(env, recipes, pvals):
+    """True if every recipe has a finite real value at the all-zero point (optyx's start point for unbounded
+    variables).  A solve of a model whose objective / constraint is undefined there fails for the model's sake."""
+    from harness.algebras import all_var_names
+    origin = {n: 0.0 for n in all_var_names(env)}
+    for r in recipes:
+        try:
+            v, sc = float_ref(env, r, origin, pvals)
+        except Exception:
+            return False
+        if not sc.ok or v is None or isinstance(v, complex):
+            return False
+        try:
+            if not np.isfinite(float(v)):
+                return False
+        except Exception:
+            return False
+    return True
